@@ -3,4 +3,5 @@ pub mod c04;
 pub mod c11;
 pub mod cli;
 pub mod cli2;
+pub mod cli3;
 pub mod place;
